@@ -369,6 +369,7 @@ def run(tier, replay=None):
     # some positions fixed.  The sampler then runs on the remaining positions; a read's factor at the fixed positions is the same for
     # every genotype, so (likelihood of the recorded genotype for ALL of the sample's reads and positions) - (likelihood carried)
     # must be one constant over all steps and chains
+    from mchap.assemble import mcmc as amcmc_mod
     for it in range({"warm": 1, "quick": 3, "thorough": 16}[tier]):
         ploidy = r.choice([2, 4]); nb = r.randint(5, 7)
         hom = sorted(r.sample(range(nb), r.randint(1, 2)))
@@ -407,6 +408,21 @@ def run(tier, replay=None):
                 for c in range(gt.shape[0]) for s_ in range(gt.shape[1])]
         spread = max(offs) - min(offs)
         scale = max(1.0, max(abs(float(x)) for x in lt.ravel()))
+        # the constant itself: the reads' factors at the positions the screen fixed (the same screen function, the fit's threshold)
+        hp = amcmc_mod._homozygosity_probabilities(reads_d, np.array([2] * nb, dtype=np.int8), ploidy, inbreeding=0.0, read_counts=counts_d)
+        fixed = hp >= mod_.fix_homozygous
+        const = 0.0
+        for j in range(nb):
+            if fixed[j].any():
+                a_ = int(np.argmax(fixed[j]))
+                col = reads_d[:, j, a_]
+                const += float(np.sum(counts_d[~np.isnan(col)] * np.log(col[~np.isnan(col)])))
+        if fixed.any(axis=1).sum() < nb and not (abs(offs[0] - const) <= 1e-7 * scale):
+            chk.violation("deep sample, homozygosity screen on: the likelihood carried in the trace is not the likelihood of the recorded "
+                          "genotype for the sample's reads and counts at the positions that were not fixed",
+                          {"ploidy": ploidy, "n_base": nb, "distinct_reads": int(len(reads_d)), "observations": int(counts_d.sum()),
+                           "fixed_positions": [int(j) for j in range(nb) if fixed[j].any()], "full_minus_carried": offs[0],
+                           "factor_of_the_fixed_positions": const}, "C09/assemble/trace-llk")
         if not (spread <= 1e-7 * scale):
             chk.violation("deep sample, homozygosity screen on: the likelihood carried in the trace does not differ from the likelihood of "
                           "the recorded genotype for all of the sample's reads by one constant (the factor of the fixed positions)",
